@@ -1,13 +1,29 @@
-(* C09: property theorems.  Statements only; every proof is `exact` of a lemma in Proofs/. *)
+(* C09 -- Schedules conclude, repeat and report exhaustion exactly as documented
+   Property theorems only: each proof is one application of a lemma proved in Proofs/, followed by Print Assumptions. *)
 From Coq Require Import ZArith List Bool.
 From CS Require MSTerm.
+From CS Require Import Actions NAdvance Multistage Exec Sched RunFacts Projections BasicInv MultistageRun TLBridge.
 Import ListNotations.
 Open Scope Z_scope.
 
-(* termination measure decreases at every yielded action *)
-Module M_C09_multistage_terminates.
+(* unlimited adjoint calculations, each executable: the run theorems hold for every number k of further requests *)
+Theorem C09_single_memory_passes : forall (N : Z), 1 <= N -> N <= maxsize -> forall k : nat,
+  exists o0 m ls, run_case PMem (BasicInv.pm N) ([Next; Fin N] ++ repeat Next k) = Ok (o0, m, ls) /\ mon_ok m /\ no_raise ls.
+Proof. exact single_memory_run. Qed.
+Print Assumptions C09_single_memory_passes.
+Theorem C09_single_disk_passes : forall (mv : bool) (N : Z), 1 <= N -> forall k : nat,
+  exists o0 m ls, run_case (PDisk mv) (BasicInv.pd N) (repeat Next (Z.to_nat N) ++ [Fin N] ++ repeat Next k) = Ok (o0, m, ls) /\ mon_ok m /\ no_raise ls.
+Proof. exact single_disk_run. Qed.
+Print Assumptions C09_single_disk_passes.
+Theorem C09_twolevel_passes : forall (N P bs : Z) (bst : storage) (tj : traj), 1 <= N -> 1 <= P -> 0 <= bs -> bst = RAM \/ bst = DISK -> forall k : nat,
+  exists o0 m ls, run_case (PTwo P bs bst tj) (ptl N P bs bst) (repeat Next (Z.to_nat (TLBridge.Q N P)) ++ [Fin N] ++ repeat Next (S k)) = Ok (o0, m, ls) /\ mon_ok m /\ no_raise ls.
+Proof. exact twolevel_run. Qed.
+Print Assumptions C09_twolevel_passes.
+
+(* PARTIAL: termination measure of the Multistage machine decreases at every yielded action; the flag theorems (is_exhausted / is_running at every point) are not proved yet: correspondence + oracle *)
+Module M_C09_multistage_terminates_partial.
 Import MSTerm.
-Theorem C09_multistage_terminates :
+Theorem C09_multistage_terminates_partial :
   forall adv : Z -> Z -> Z,
          (forall m k : Z, 2 <= m -> 1 <= k -> 1 <= adv m k <= m - 1) ->
          (forall m : Z, 2 <= m -> adv m 1 = m - 1) ->
@@ -27,6 +43,6 @@ Theorem C09_multistage_terminates :
          | _ => True
          end.
 Proof. exact (@MSTerm.mu_decreases). Qed.
-Print Assumptions C09_multistage_terminates.
-End M_C09_multistage_terminates.
+Print Assumptions C09_multistage_terminates_partial.
+End M_C09_multistage_terminates_partial.
 
